@@ -16,6 +16,13 @@ def sm(n):
 def ex(m, n):
     return "arn:aws:states:local:0123456789:execution:%s:%s" % (m, n)
 
+import re
+ANON_RE = re.compile(r"[0-9a-f]{8}-[0-9a-f]{4}-[0-9a-f]{4}-[0-9a-f]{4}-[0-9a-f]{12}")
+def anon(text):
+    """Generated execution names renamed by first occurrence (both the reference's and the stores' canonical text list them in the same order)."""
+    names = {}
+    return ANON_RE.sub(lambda mo: names.setdefault(mo.group(0), "ANON%d" % len(names)), text)
+
 VALIDATION = {"ValidationException", "MissingRequiredParameter", "SerializationException", "InvalidName", "InvalidArn", "InvalidDefinition",
               "InvalidExecutionInput", "InvalidLoggingConfiguration", "StateMachineTypeNotSupported", "InvalidToken", "InvalidOutput"}
 
@@ -78,6 +85,7 @@ def alphabet(tier):
     c("list", "ListStateMachines", {})
     c("start-ma-e1", "StartExecution", {"stateMachineArn": sm("ma"), "name": "e1", "input": "{\"a\": 1}"})
     c("start-ma-e2-noinput", "StartExecution", {"stateMachineArn": sm("ma"), "name": "e2"})
+    c("start-ma-unnamed", "StartExecution", {"stateMachineArn": sm("ma"), "input": "{\"u\": 1}"})
     c("start-mb-e1", "StartExecution", {"stateMachineArn": sm("mb"), "name": "e1", "input": "{}"})
     c("start-mc", "StartExecution", {"stateMachineArn": sm("mc"), "name": "e1"})
     c("start-badname", "StartExecution", {"stateMachineArn": sm("ma"), "name": "a b"}, {"InvalidName"})
@@ -100,6 +108,19 @@ def alphabet(tier):
     c("smforexec-ma-e1", "DescribeStateMachineForExecution", {"executionArn": ex("ma", "e1")})
     c("smforexec-ma-e9", "DescribeStateMachineForExecution", {"executionArn": ex("ma", "e9")})
     c("smforexec-badarn", "DescribeStateMachineForExecution", {"executionArn": "x"}, {"InvalidArn"})
+    # arguments of the wrong JSON *container* type (arrays / objects where a string is expected): a validation error, never an internal one
+    for tag, val in (("array", ["N"]), ("object", {"n": "N"})):
+        c("create-name-" + tag, "CreateStateMachine", {"name": val, "roleArn": R1, "definition": S1}, VALIDATION)
+        c("create-role-" + tag, "CreateStateMachine", {"name": "mc", "roleArn": val, "definition": S1}, VALIDATION)
+        c("create-def-" + tag, "CreateStateMachine", {"name": "mc", "roleArn": R1, "definition": val}, VALIDATION)
+        c("describe-arn-" + tag, "DescribeStateMachine", {"stateMachineArn": val}, VALIDATION)
+        c("update-arn-" + tag, "UpdateStateMachine", {"stateMachineArn": val, "roleArn": R2}, VALIDATION)
+        c("delete-arn-" + tag, "DeleteStateMachine", {"stateMachineArn": val}, VALIDATION)
+        c("start-arn-" + tag, "StartExecution", {"stateMachineArn": val, "name": "e3"}, VALIDATION)
+        c("start-name-" + tag, "StartExecution", {"stateMachineArn": sm("ma"), "name": val}, VALIDATION)
+        c("descexec-arn-" + tag, "DescribeExecution", {"executionArn": val}, VALIDATION)
+        c("listexec-arn-" + tag, "ListExecutions", {"stateMachineArn": val}, VALIDATION)
+        c("smforexec-arn-" + tag, "DescribeStateMachineForExecution", {"executionArn": val}, VALIDATION)
     # malformed requests: some 4xx, nothing stored, never a 5xx
     for tag, raw in (("notjson", "{nope"), ("array", "[1, 2]"), ("string", "\"hello\""), ("null", "null"), ("number", "5")):
         c("create-body-" + tag, "CreateStateMachine", None, "any4xx", raw=raw)
@@ -177,9 +198,26 @@ class Ref(object):
             if arn not in M:
                 return ("error", {"StateMachineDoesNotExist"})
             inp = json.loads(p.get("input", "{}"))
-            earn = ex(M[arn]["name"], p["name"])
             d = M[arn]["definition"]
             out = dict(inp, x=1) if d == D2 else inp
+            if "name" not in p:
+                # an execution started without a name gets a fresh one: never the ARN of an execution that already exists
+                if sum(1 for r in E.values() if ANON_RE.search(r["name"])) >= 2:
+                    return ("skip",)       # bound: at most two unnamed executions in a store state
+                got = {}
+                def chk(b):
+                    if not isinstance(b, dict) or b.get("startDate") != now or not isinstance(b.get("executionArn"), str):
+                        return False
+                    pre = ex(M[arn]["name"], "")
+                    nm = b["executionArn"][len(pre):]
+                    got["arn"], got["name"] = b["executionArn"], nm
+                    return b["executionArn"].startswith(pre) and ANON_RE.fullmatch(nm) is not None and b["executionArn"] not in E
+                def mut():
+                    if M[arn]["type"] == "STANDARD":
+                        E[got["arn"]] = {"executionArn": got["arn"], "input": inp, "name": got["name"], "output": out, "startDate": now, "stateMachineArn": arn,
+                                         "status": "SUCCEEDED", "stopDate": now}
+                return ("ok", chk, mut)
+            earn = ex(M[arn]["name"], p["name"])
             def mut():
                 if M[arn]["type"] == "STANDARD":
                     E[earn] = {"executionArn": earn, "input": inp, "name": p["name"], "output": out, "startDate": now, "stateMachineArn": arn,
@@ -226,7 +264,7 @@ class Ref(object):
         """Store state without dates (ranked)."""
         ms = {k: {kk: vv for kk, vv in v.items() if kk not in ("creationDate", "updateDate")} for k, v in self.machines.items()}
         es = {k: {kk: vv for kk, vv in v.items() if kk not in ("startDate", "stopDate")} for k, v in self.execs.items()}
-        return json.dumps([ms, es], sort_keys=True)
+        return anon(json.dumps([ms, es], sort_keys=True))
 
 # ------------------------------------------------------------------------------------------------------
 class Sut(object):
@@ -260,7 +298,7 @@ class Sut(object):
                 if isinstance(v.get(f), str):
                     v[f] = json.loads(v[f])
             es[k] = v
-        return json.dumps([ms, es], sort_keys=True)
+        return anon(json.dumps([ms, es], sort_keys=True))
 
     def full_dump(self):
         e = self.eng
@@ -323,6 +361,8 @@ def bfs(tier, blocking=False, shared_only=False):
                 before = sut.full_dump()
                 r2 = ref.clone()
                 exp = r2.expect(c, snap[3] + 1.0)
+                if exp[0] == "skip":
+                    continue
                 now, st, js, text = sut.call(c)
                 after = sut.full_dump()
                 transitions += 1
@@ -538,6 +578,8 @@ def replay(rp):
         c = calls[tag]
         before = sut.full_dump()
         exp = ref.expect(c, sut.w.clock.now + 1.0)
+        if exp[0] == "skip":
+            continue
         now, st, js, text = sut.call(c)
         v = judge(c, exp, st, js, text, before, sut.full_dump())
         if v is None and exp[0] == "ok":
